@@ -8,7 +8,7 @@ import typing
 
 from .._backends.auto import AutoBackend
 from .._backends.base import SOCKET_OPTION, AsyncNetworkBackend, AsyncNetworkStream
-from .._exceptions import ConnectError, ConnectTimeout
+from .._exceptions import ConnectError, ConnectionNotAvailable, ConnectTimeout
 from .._models import Origin, Request, Response
 from .._ssl import default_ssl_context
 from .._synchronization import AsyncLock, AsyncShieldCancellation
@@ -74,6 +74,10 @@ class AsyncHTTPConnection(AsyncConnectionInterface):
 
         async with self._request_lock:
             if self._connection is None:
+                if self._connect_failed:
+                    # Another request failed to establish this connection while we
+                    # were waiting, and the pool has dropped it.
+                    raise ConnectionNotAvailable()
                 try:
                     stream = await self._connect(request)
 
